@@ -37,7 +37,8 @@ REQUIRED_REACH = ["mixed-dirichlet-neumann", "pure-dirichlet", "boundary-project
                   "non-affine-degree-one", "graded-mesh", "vector-element-projection", "hdiv-hcurl-projection",
                   "neumann-part-as-overlapping-tags", "constrained-by-enforce-then-condense",
                   "two-splits-on-one-assembled-system", "complex-valued-projection", "complex-valued-boundary-projection",
-                  "solution-of-small-magnitude", "straight-second-order-mesh", "projection-of-callable"]
+                  "solution-of-small-magnitude", "straight-second-order-mesh", "projection-of-callable", "model-forms:poisson",
+                  "model-forms:lame-parameters"]
 
 # (record name, degree of the manufactured solution)
 COMPLETE = {
@@ -168,7 +169,13 @@ def scalar_patch(ctx, k, kind):
     order = max(2 * elem.maxdeg, 2 * deg + 2)
     order = min(order, {"tri": 19, "tet": 8}.get(kind, order))
     basis = skfem.CellBasis(mesh, elem, intorder=order)
-    A = skfem.BilinearForm(lambda u_, v, w: dot(grad(u_), grad(v)) + c * u_ * v).assemble(basis)
+    if rng.random() < 0.5 and not getattr(elem, "elems", None):
+        # the library's model forms instead of the harness' own integrand
+        from skfem.models.poisson import laplace, mass
+        A = laplace.assemble(basis) + c * mass.assemble(basis)
+        ctx.reached("model-forms:poisson")
+    else:
+        A = skfem.BilinearForm(lambda u_, v, w: dot(grad(u_), grad(v)) + c * u_ * v).assemble(basis)
     b = skfem.LinearForm(lambda v, w: f_fn(w.x) * v).assemble(basis)
     b0 = b
     Dfac, Nfac = boundary_split(rng, mesh, allow_empty_dirichlet=reaction)
@@ -247,6 +254,15 @@ def scalar_patch(ctx, k, kind):
             dense = AII.toarray()
             kappa = np.linalg.cond(dense)
             if kappa * 2.2e-16 > 1e-9:
+                # the guard reads the library's own kept block: a singular block is explained only by a component of the
+                # mesh without Dirichlet data (pure Neumann); on a connected mesh with a Dirichlet part and a decent
+                # element it points at the returned DOF set
+                from ..refmodel import topology as T_
+                if (not np.isfinite(kappa) or kappa > 1e14) and Dfac.size and not reaction and deg <= 2 and \
+                        T_.from_mesh(mesh).components() == 1:
+                    nD_ = int(np.asarray(Dd.flatten()).size)
+                    ctx.check(monitor, False, mech="kept-block-singular-on-a-connected-mesh-with-dirichlet-data", kappa=float(kappa),
+                              constrained=nD_, **tag)
                 ctx.drop("ill-conditioned-system")
                 return
     except Exception:
@@ -300,6 +316,16 @@ def elasticity_patch(ctx, k, kind):
     order = max(2 * elem.maxdeg, 2 * deg + 2)
     order = min(order, {"tri": 19, "tet": 8}.get(kind, order))
     basis = skfem.CellBasis(mesh, elem, intorder=order)
+    if rng.random() < 0.5:
+        # Lame parameters from Young's modulus and Poisson ratio through the library's helper; the exact solution is
+        # built from the closed form of the same pair
+        from skfem.models.elasticity import lame_parameters
+        Eym, nu = float(rng.integers(2, 9)), float(rng.integers(1, 4)) / 10.0
+        lam_l, mu_l = lame_parameters(Eym, nu)
+        lam_c, mu_c = Eym * nu / ((1 + nu) * (1 - 2 * nu)), Eym / (2 * (1 + nu))
+        ctx.close("patch-test-elasticity", np.array([lam_l, mu_l]), np.array([lam_c, mu_c]), rtol=1e-13, scale=max(lam_c, mu_c),
+                  mech="lame-parameters-closed-form", E=Eym, nu=nu)
+        ctx.reached("model-forms:lame-parameters")
     A = linear_elasticity(lam, mu).assemble(basis)
     b = skfem.LinearForm(lambda v, w: sum(f_fns[i](w.x) * v[i] for i in range(d))).assemble(basis)
     Dfac, Nfac = boundary_split(rng, mesh, allow_empty_dirichlet=False)
